@@ -11,6 +11,9 @@ pub(super) fn post_tribes(race: Race, t: &[Tribe; 2]) -> bool {
     t[0] as u8 == 2 * (race as u8) - 1 && t[1] as u8 == 2 * (race as u8)
 }
 
+// Arbitrary values of the enums (needed so that callers can be verified against get_supported_tribes' *contract* only)
+impl kani::Arbitrary for Tribe { fn any() -> Self { any_tribe() } }
+
 fn any_race() -> Race {
     let c: u8 = kani::any();
     kani::assume(c >= 1 && c <= 8);
@@ -38,8 +41,9 @@ fn k_tribes_contract() {
 }
 
 //@unit props=C15 label=P tier=quick fn=race::get_race_id
-//@desc get_race_id is Some iff the tribe belongs to the race (tribe in {2r-1, 2r})
+//@desc get_race_id is Some iff the tribe belongs to the race (tribe in {2r-1, 2r}); modular: the callee get_supported_tribes is replaced by its verified contract (stub_verified)
 #[kani::proof]
+#[kani::stub_verified(get_supported_tribes)]
 fn k_race_id_defined() {
     let (r, t, g) = (any_race(), any_tribe(), any_gender());
     let (rc, tc) = (r as u8, t as u8);
